@@ -869,11 +869,14 @@ func (e *encoderSimpleBytes) kMapCanonical(ti *typeInfo, rv, rvv reflect.Value, 
 
 		sideEncode(e.hh, &e.h.sideEncPool, func(se encoderI) {
 			se.ResetBytes(&mksv)
+
+			se.ciInherit(e.ci)
 			for i, k := range mks {
 				v := &mksbv[i]
 				l := len(mksv)
 				se.setContainerState(containerMapKey)
-				se.encodeR(baseRVRV(k))
+
+				se.encodeR(k)
 				se.atEndOfEncode()
 				se.writerEnd()
 				v.r = k
@@ -4701,11 +4704,14 @@ func (e *encoderSimpleIO) kMapCanonical(ti *typeInfo, rv, rvv reflect.Value, key
 
 		sideEncode(e.hh, &e.h.sideEncPool, func(se encoderI) {
 			se.ResetBytes(&mksv)
+
+			se.ciInherit(e.ci)
 			for i, k := range mks {
 				v := &mksbv[i]
 				l := len(mksv)
 				se.setContainerState(containerMapKey)
-				se.encodeR(baseRVRV(k))
+
+				se.encodeR(k)
 				se.atEndOfEncode()
 				se.writerEnd()
 				v.r = k
